@@ -32,6 +32,15 @@ class SpyRunner(Runner):
         self.empty_waits = 0
         self.horizon = horizon
         self.interrupted = False
+        # a pass-through spy forwards everything it does not record itself - including Runner
+        # methods that only a changed labtech knows about (the base class may give them defaults)
+        own = set(vars(SpyRunner))
+        for name in dir(inner):
+            if name.startswith('_') or name in own:
+                continue
+            attr = getattr(inner, name, None)
+            if callable(attr):
+                setattr(self, name, attr)
 
     def _held(self):
         rm = getattr(self.inner, 'results_map', {})
